@@ -59,3 +59,20 @@ def compare_builds(res, rows_a, rows_b, what):
     if len(rows_a) != len(rows_b):
         res.tie_broken("generator", "the two builds produced %d and %d cases (%s)" % (len(rows_a), len(rows_b), what))
     return n
+
+
+def replay_file(res, path, glue="Col"):
+    """Re-run the model on the case lines of a replay file and show them next to what was recorded
+    for the implementation; re-running the implementation on the same seed is `./check <id> --seed N`."""
+    import re
+    txt = open(path).read()
+    print(txt[:6000])
+    cases = [m.group(1).strip() for m in re.finditer(r"^\s*case:\s*(.+)$", txt, re.M)]
+    cases = [c for c in cases if c and not c.startswith("lcdict")]
+    if not cases:
+        return 0
+    out = C.run_eval(glue, cases[:50])
+    print("---- model on the replayed cases ----")
+    for c, o in zip(cases, out):
+        print("case:  %s\nmodel: %s" % (c[:400], o[:400]))
+    return 0
